@@ -36,6 +36,7 @@ func init() {
 	reg(propC14)
 	reg(propC15Dec)
 	reg(propC15Grammar)
+	reg(propC15Muxer)
 	reg(propC16)
 	reg(propC17)
 	reg(propC18)
